@@ -243,19 +243,32 @@ pub struct WriteWrapper<W> {
 impl<W> WriteWrapper<W> {
     /// Replaces the given error with the held error if available.
     pub fn take_err(&mut self, original: Error) -> Error {
-        self.err
-            .take()
-            .map(|io_err| {
-                Error::new(ErrorKind::WriteFailure, "I/O error during rendering")
-                    .with_source(io_err)
-            })
-            .unwrap_or(original)
+        self.err.take().map(write_failure).unwrap_or(original)
     }
+
+    /// Turns a success into the held error if there is one.
+    ///
+    /// A failed write is remembered even if whoever issued it (a custom
+    /// formatter, the `render` method of an object) dropped the error.
+    pub fn check<T>(&mut self, rv: T) -> Result<T, Error> {
+        match self.err.take() {
+            Some(io_err) => Err(write_failure(io_err)),
+            None => Ok(rv),
+        }
+    }
+}
+
+fn write_failure(io_err: io::Error) -> Error {
+    Error::new(ErrorKind::WriteFailure, "I/O error during rendering").with_source(io_err)
 }
 
 impl<W: io::Write> fmt::Write for WriteWrapper<W> {
     #[inline]
     fn write_str(&mut self, s: &str) -> fmt::Result {
+        // once the writer failed nothing else is handed to it
+        if self.err.is_some() {
+            return Err(fmt::Error);
+        }
         self.w.write_all(s.as_bytes()).map_err(|e| {
             self.err = Some(e);
             fmt::Error
@@ -264,6 +277,9 @@ impl<W: io::Write> fmt::Write for WriteWrapper<W> {
 
     #[inline]
     fn write_char(&mut self, c: char) -> fmt::Result {
+        if self.err.is_some() {
+            return Err(fmt::Error);
+        }
         self.w
             .write_all(c.encode_utf8(&mut [0; 4]).as_bytes())
             .map_err(|e| {
